@@ -15,23 +15,27 @@
 EXTENDS DictableOps, Json
 CONSTANTS MaxDepth, MaxRowsC
 
-VARIABLES heap, reg, out, hist
-vars == <<heap, reg, out, hist>>
+VARIABLES heap, reg, out, hist, av
+vars == <<heap, reg, out, hist, av>>
 
 \* ---- the machine ------------------------------------------------------------------------------
 Live == {r \in Regs : reg[r] # 0}
 T(r) == heap[reg[r]]
-Alloc(rd, res, h) ==
+AllocA(rd, res, h) ==
     /\ hist' = Append(hist, h)
     /\ out' = res.err
     /\ IF res.ok THEN heap' = Append(heap, res.t) /\ reg' = [reg EXCEPT ![rd] = Len(heap) + 1]
        ELSE UNCHANGED <<heap, reg>>
-InPlace(r, res, h) ==
+InPlaceA(r, res, h) ==
     /\ hist' = Append(hist, h)
     /\ out' = res.err
     /\ heap' = [heap EXCEPT ![reg[r]] = res.t]        \* UpdateT returns the partially updated table on error, the others return ok
     /\ UNCHANGED reg
-Alias(rd, r, h) == hist' = Append(hist, h) /\ out' = "ok" /\ reg' = [reg EXCEPT ![rd] = reg[r]] /\ UNCHANGED heap
+Alias(rd, r, h) == hist' = Append(hist, h) /\ out' = "ok" /\ reg' = [reg EXCEPT ![rd] = reg[r]] /\ UNCHANGED <<heap, av>>
+\* no call ever changes an argument object of the caller (av); the calls that take the list L as a column only note that it was handed over
+Alloc(rd, res, h) == AllocA(rd, res, h) /\ UNCHANGED av
+InPlace(r, res, h) == InPlaceA(r, res, h) /\ UNCHANGED av
+GiveL == av' = [av EXCEPT !.lg = TRUE]
 
 SetArgs(t) == {<<"s", V2>>, <<"s", None>>, <<"l", <<VX>>>>, <<"l", <<V1, V2>>>>, <<"l", <<>>>>,
                <<"l", [i \in 1..NR(t) |-> IF i % 2 = 1 THEN V2 ELSE VX]>>}
@@ -93,11 +97,64 @@ IAddNone == \E r \in Live : Alias(r, r, [op |-> "IAddNone", r |-> r, rd |-> r]) 
 ISub     == \E r \in Live, cs \in {<<"b">>, <<"a", "d">>} : SoleName(r) /\                                 \* e -= c, e -= [c, ...]
                Alloc(r, MinusColsT(T(r), cs), [op |-> "ISub", r |-> r, rd |-> r, cs |-> cs])
 
-Init == heap = <<>> /\ reg = [r \in Regs |-> 0] /\ out = "ok" /\ hist = <<>>
+\* ---- calls that take the caller's argument objects (av), and the caller's own actions on them ----------------------
+\* The history names the object, not its value: the driver keeps ONE Python object per name for the whole session and hands
+\* that very object to every call that names it; all of them are observed afterwards (Snapshot.args).
+KwMenu == {<<<<"c", <<"s", V2>>>>>>, <<<<"e", <<"l", <<V1>>>>>>, <<"c", <<"s", None>>>>>>, <<<<"c", <<"l", <<V1, V2, VX>>>>>>>>}
+RnKwMenu == {<<<<"b", "y">>>>, <<<<"c", "z">>, <<"key", "a2">>>>}
+NewMap    == Alloc("r2", FromCols(MapCols(av.m), MapArgs(av.m)), [op |-> "NewMap", rd |-> "r2"])                      \* dictable(m)
+NewMapKw  == \E kw \in KwMenu : MapKeys(av.m) \cap MapKeys(kw) = {} /\                                                  \* dictable(m, c = ...)
+               Alloc("r2", FromMapKw(av.m, kw), [op |-> "NewMapKw", rd |-> "r2", kw |-> kw])
+NewTabKw  == \E r \in Live, kw \in KwMenu : MapKeys(kw) \cap ColSet(T(r)) = {} /\                                       \* dictable(d, c = ...)
+               Alloc(NextReg(r), FromTableKw(T(r), kw), [op |-> "NewTabKw", r |-> r, rd |-> NextReg(r), kw |-> kw])
+NewRecs   == Alloc("r2", FromRecords(av.recs), [op |-> "NewRecs", rd |-> "r2"])                                          \* dictable(recs)
+NewColsL  == \E b \in {"L", "x"} :                                                                                      \* dictable(a = L, b = L): one list, two parameters
+               AllocA("r2", FromCols(<<"a", "b">>, <<<<"l", av.L>>, IF b = "L" THEN <<"l", av.L>> ELSE <<"s", VX>>>>), [op |-> "NewColsL", rd |-> "r2", b |-> b]) /\ GiveL
+NewRowsCs == av.cs # <<>> /\ NoDup(av.cs) /\ Alloc("r2", FromRows(RowsFor(av.cs), av.cs), [op |-> "NewRowsCs", rd |-> "r2", rows |-> RowsFor(av.cs)])   \* dictable(rows, cs)
+SetColL   == \E r \in Live, c \in {"a", "c"} : LET res == SetColT(T(r), c, <<"l", av.L>>) IN                            \* d[c] = L
+               InPlaceA(r, IF res.ok THEN res ELSE [ok |-> FALSE, t |-> T(r), err |-> res.err], [op |-> "SetColL", r |-> r, c |-> c]) /\ GiveL
+UpdateMap == \E r \in Live : InPlace(r, UpdateT(T(r), av.m, 1), [op |-> "UpdateMap", r |-> r])                           \* d.update(m)
+DeriveConstL == \E r \in Live, c \in {"a", "c"} :                                                                       \* d(c = L)
+               AllocA(NextReg(r), SetColT(T(r), c, <<"l", av.L>>), [op |-> "DeriveConstL", r |-> r, rd |-> NextReg(r), c |-> c]) /\ GiveL
+DeriveMap == \E r \in Live : Alloc(NextReg(r), AssignAllT(T(r), av.m), [op |-> "DeriveMap", r |-> r, rd |-> NextReg(r)])  \* d(**m)
+RenameMap == \E r \in Live : RenameFits(T(r), av.rn) /\                                                                  \* d.relabel(rn) / d.rename(rn)
+               Alloc(NextReg(r), RenameManyT(T(r), av.rn), [op |-> "RenameMap", r |-> r, rd |-> NextReg(r)])
+RenameMapKw == \E r \in Live, kw \in RnKwMenu : MapKeys(av.rn) \cap MapKeys(kw) = {} /\ RenameFits(T(r), av.rn \o kw) /\  \* d.relabel(rn, b = 'y')
+               Alloc(NextReg(r), RenameManyT(T(r), av.rn \o kw), [op |-> "RenameMapKw", r |-> r, rd |-> NextReg(r), kw |-> kw])
+ProjectCs == \E r \in Live : av.cs # <<>> /\ NoDup(av.cs) /\ Alloc(NextReg(r), ProjectT(T(r), av.cs), [op |-> "ProjectCs", r |-> r, rd |-> NextReg(r)])     \* d[cs]
+MinusCs   == \E r \in Live : Alloc(NextReg(r), MinusColsT(T(r), av.cs), [op |-> "MinusCs", r |-> r, rd |-> NextReg(r)])  \* d - cs
+ISubCs    == \E r \in Live : SoleName(r) /\ Alloc(r, MinusColsT(T(r), av.cs), [op |-> "ISubCs", r |-> r, rd |-> r])      \* d -= cs
+DoCs      == \E r \in Live : av.cs # <<>> /\ Range(av.cs) \subseteq ColSet(T(r)) /\                                      \* d.do(f, cs)
+               Alloc(NextReg(r), DoT(T(r), <<"none0">>, av.cs), [op |-> "DoCs", r |-> r, rd |-> NextReg(r), fs |-> <<"none0">>])
+TakeIx    == \E r \in Live : av.ix # <<>> /\ Alloc(NextReg(r), TakeT(T(r), av.ix), [op |-> "TakeIx", r |-> r, rd |-> NextReg(r)])   \* d[ix]
+AddRecs   == \E r \in Live : Alloc(NextReg(r), ConcatT(T(r), FromRecords(av.recs).t), [op |-> "AddRecs", r |-> r, rd |-> NextReg(r)])   \* d + recs
+IAddRecs  == \E r \in Live : SoleName(r) /\ Alloc(r, ConcatT(T(r), FromRecords(av.recs).t), [op |-> "IAddRecs", r |-> r, rd |-> r])    \* d += recs
+AddRec1   == \E r \in Live : av.recs # <<>> /\ Alloc(NextReg(r), ConcatT(T(r), RecordT(av.recs[1])), [op |-> "AddRec1", r |-> r, rd |-> NextReg(r)])   \* d + recs[0]
+IAddRec1  == \E r \in Live : av.recs # <<>> /\ SoleName(r) /\ Alloc(r, ConcatT(T(r), RecordT(av.recs[1])), [op |-> "IAddRec1", r |-> r, rd |-> r])  \* d += recs[0]
+\* the caller: new objects for all names (Bind), or an edit IN PLACE of one of them (same object, other contents)
+Caller(h, w) == hist' = Append(hist, h) /\ out' = "ok" /\ av' = w /\ UNCHANGED <<heap, reg>>
+Bind      == \E w \in Worlds : Caller([op |-> "Bind", av |-> ObserveArgs(w)], w)
+MapSet    == \E c \in {"a", "c"} : \E a \in {<<"s", V2>>, <<"l", <<VX, V1>>>>} : Caller([op |-> "MapSet", c |-> c, arg |-> a], [av EXCEPT !.m = MapPut(@, c, a)])      \* m[c] = value
+MapDel    == \E c \in MapKeys(av.m) : Caller([op |-> "MapDel", c |-> c], [av EXCEPT !.m = MapDrop(@, c)])                \* del m[c]
+RnSet     == \E p \in {<<"b", "y">>, <<"a", "z">>} : Caller([op |-> "RnSet", c |-> p[1], c2 |-> p[2]], [av EXCEPT !.rn = MapPut(@, p[1], p[2])])                       \* rn[c] = c2
+RnDel     == \E c \in MapKeys(av.rn) : Caller([op |-> "RnDel", c |-> c], [av EXCEPT !.rn = MapDrop(@, c)])
+RecsAppend == \E rec \in {<<<<"b", V1>>>>} : Len(av.recs) < 3 /\ Caller([op |-> "RecsAppend", rec |-> rec], [av EXCEPT !.recs = Append(@, rec)])                       \* recs.append(record)
+RecSet    == av.recs # <<>> /\ Caller([op |-> "RecSet", c |-> "c", v |-> V1], [av EXCEPT !.recs[1] = MapPut(@, "c", V1)])   \* recs[0][c] = v
+LAppend   == ~av.lg /\ Len(av.L) < 4 /\ Caller([op |-> "LAppend", v |-> None], [av EXCEPT !.L = Append(@, None)])          \* L.append(v)
+CsAppend  == \E c \in {"a", "c"} : Len(av.cs) < 3 /\ Caller([op |-> "CsAppend", c |-> c], [av EXCEPT !.cs = Append(@, c)])  \* cs.append(c)
+CsPop     == av.cs # <<>> /\ Caller([op |-> "CsPop"], [av EXCEPT !.cs = Tail(@)])                                        \* del cs[0]
+IxAppend  == Len(av.ix) < 4 /\ Caller([op |-> "IxAppend", i |-> 1], [av EXCEPT !.ix = Append(@, 1)])                     \* ix.append(1)
+ArgMakers   == NewMap \/ NewMapKw \/ NewTabKw \/ NewRecs \/ NewColsL \/ NewRowsCs \/ DeriveConstL \/ DeriveMap \/ RenameMap \/ RenameMapKw
+               \/ ProjectCs \/ MinusCs \/ DoCs \/ TakeIx \/ AddRecs \/ AddRec1
+ArgChangers == SetColL \/ UpdateMap \/ ISubCs \/ IAddRecs \/ IAddRec1
+ArgCalls    == ArgMakers \/ ArgChangers
+CallerEdits == MapSet \/ MapDel \/ RnSet \/ RnDel \/ RecsAppend \/ RecSet \/ LAppend \/ CsAppend \/ CsPop \/ IxAppend
+
+Init == heap = <<>> /\ reg = [r \in Regs |-> 0] /\ out = "ok" /\ hist = <<>> /\ av = W0
 Makers   == Slice \/ Mask \/ Take \/ Project \/ Derive \/ DeriveConst \/ DerivePair \/ Do \/ Rename \/ Swap \/ Concat \/ AddRec \/ Copy \/ Minus \/ NoFilter \/ AddNone \/ ConcatOne
 Changers == SetCol \/ SetFrom \/ DelCol \/ Update \/ IAddRec \/ IAddTab \/ IAddNone \/ ISub
-Next == Len(hist) < MaxDepth /\ (New \/ Makers \/ Changers)       \* exhaustive runs: no successors are built beyond the bound
-NextSim == New \/ Makers \/ Changers                               \* simulation: the depth of the run is the bound
+Next == Len(hist) < MaxDepth /\ (New \/ Makers \/ Changers \/ ArgCalls \/ CallerEdits \/ Bind)       \* exhaustive runs: no successors are built beyond the bound
+NextSim == New \/ Makers \/ Changers \/ ArgCalls \/ CallerEdits \/ Bind                              \* simulation: the depth of the run is the bound
 Bound == Len(hist) <= MaxDepth /\ \A o \in 1..Len(heap) : Len(heap[o].rows) <= MaxRowsC
 \* the directed history form: one table in r1, a table made from it, then any of the live tables changed in place or grown
 DerivedSeeds == {[kind |-> "cols", cols |-> <<"a", "b">>, args |-> <<<<"l", <<V1, V2>>>>, <<"l", <<VX, None>>>>>>],
@@ -109,18 +166,36 @@ DerivedFrom(S) == \/ hist = <<>> /\ \E s \in S : Alloc("r1", Construct(s), [op |
                   \/ Len(hist) = 2 /\ Changers
 NextDerived == DerivedFrom(DerivedSeeds)
 NextDerivedAll == DerivedFrom(Seeds)          \* thorough tier: from every seed table
-View == <<heap, reg, out>>
+\* the directed history form for shared argument objects: the caller's objects, a table, a call that is handed some of them, then
+\* (possibly after the caller edited one of them in place) a second call that is handed the same objects - every ordered pair
+SharedSeeds == {[kind |-> "cols", cols |-> <<"a", "b">>, args |-> <<<<"l", <<V1, V2>>>>, <<"l", <<VX, None>>>>>>],
+                [kind |-> "cols", cols |-> <<"key", "a">>, args |-> <<<<"s", VX>>, <<"l", <<None>>>>>>],
+                [kind |-> "rows", hdrs |-> <<"a", "c", "b">>, rows |-> <<<<V1, V2, None>>, <<None, VX, V1>>, <<V2, V2, V2>>>>],
+                [kind |-> "rows", hdrs |-> <<"a", "b">>, rows |-> <<>>]}
+SharedFrom(Ws, S, edits) ==
+    \/ hist = <<>> /\ \E w \in Ws : Caller([op |-> "Bind", av |-> ObserveArgs(w)], w)
+    \/ Len(hist) = 1 /\ \E s \in S : Alloc("r1", Construct(s), [op |-> "New", rd |-> "r1", seed |-> s])
+    \/ Len(hist) = 2 /\ ArgCalls
+    \/ Len(hist) = 3 /\ (ArgCalls \/ (edits /\ CallerEdits))
+    \/ Len(hist) = 4 /\ Last(hist).op \in CallerOps /\ ArgCalls
+NextShared == SharedFrom({W0}, {s \in SharedSeeds : s.kind = "cols"}, FALSE)
+NextSharedAll == SharedFrom(Worlds, SharedSeeds, FALSE)                       \* thorough tier: every world of objects, every seed table
+NextSharedEdit == SharedFrom({W0}, {s \in SharedSeeds : s.kind = "cols" /\ s.cols[1] = "a"}, TRUE)      \* thorough tier: call ; the caller edits an object in place ; call
+View == <<heap, reg, out, av>>
 
 \* ---- properties -------------------------------------------------------------------------------
 TypeOK == /\ \A r \in Regs : reg[r] \in 0..Len(heap)
+          /\ DOMAIN av = ArgNames \cup {"lg"}
           /\ out \in {"ok", "ValueError", "KeyError", "IndexError", "TypeError"}
 AllRectangular == \A o \in 1..Len(heap) : Rectangular(heap[o]) /\ (heap[o].cols = <<>> => heap[o].rows = <<>>)
                                           /\ Cardinality(Range(heap[o].cols)) = Len(heap[o].cols)
 \* a call changes at most one existing object - the target of an in-place call - and never on rejection
 OnlyTargetChanges == [][\A o \in 1..Len(heap) : heap'[o] # heap[o] =>
-                           /\ Last(hist').op \in {"SetCol", "SetFrom", "DelCol", "Update"}
+                           /\ Last(hist').op \in {"SetCol", "SetFrom", "DelCol", "Update", "SetColL", "UpdateMap"}
                            /\ o = reg[Last(hist').r]]_vars
-RejectedLeavesState == [][(out' \in {"ValueError", "KeyError", "IndexError", "TypeError"} /\ Last(hist').op # "Update") => (heap' = heap /\ reg' = reg)]_vars
+RejectedLeavesState == [][(out' \in {"ValueError", "KeyError", "IndexError", "TypeError"} /\ Last(hist').op \notin {"Update", "UpdateMap"}) => (heap' = heap /\ reg' = reg)]_vars
+\* a call owns nothing of the caller: only the caller's own actions change the caller's objects, and those change no table
+CallsOwnNothing == [][IF Last(hist').op \in CallerOps THEN heap' = heap /\ reg' = reg ELSE ObserveArgs(av') = ObserveArgs(av)]_vars
 \* concatenation appends rows in order and fills absent columns with None
 ConcatLaw == \A ra \in Live, rb \in Live :
                 LET c == ConcatT(T(ra), T(rb)).t IN
@@ -138,9 +213,10 @@ DoLaw == \A r \in Live, m \in DoMenu :
 
 \* ---- what a state looks like from outside (the S2C expectation) ---------------------------------
 Observe(t) == [cols |-> t.cols, rows |-> t.rows, len |-> NR(t), shape |-> <<NR(t), Len(t.cols)>>]
-Snapshot == [hist |-> hist, out |-> out,
+Snapshot == [hist |-> hist, out |-> out, args0 |-> ObserveArgs(W0), args |-> ObserveArgs(av),
              regs |-> [r \in Regs |-> IF reg[r] = 0 THEN [live |-> FALSE] ELSE [live |-> TRUE, obj |-> reg[r], table |-> Observe(T(r))]]]
 Emit == PrintT(ToJson(Snapshot))
 GenBound == Bound /\ (hist # <<>> => Emit)
 SimBound == Bound /\ (Len(hist) = MaxDepth => Emit)
+SharedBound == Bound /\ (Len(hist) >= 3 => Emit)
 =============================================================================
